@@ -475,4 +475,86 @@ mod verif_kani_wb {
     fn record_encoder_layout_v1() {
         encoder_case(false);
     }
+
+    // ------------------------------------------------------------------ TTL-only rewrite (U13)
+    static mut DISK_IMG: [u8; FEOX_BLOCK_SIZE] = [0; FEOX_BLOCK_SIZE];
+    static mut DISK_READS: usize = 0;
+    static mut DISK_READ_SECTOR: u64 = 0;
+    static mut PIN_DURING_READ: u32 = 0;
+    static mut SRC_REC: *const Record = std::ptr::null();
+
+    fn stub_read_block(_io: &DiskIO, sector: u64, count: u64) -> Result<Vec<u8>> {
+        unsafe {
+            DISK_READS += 1;
+            DISK_READ_SECTOR = sector;
+            assert!(count == 1, "one-block extent");
+            if !SRC_REC.is_null() {
+                PIN_DURING_READ = (*SRC_REC).extent_state_for_harness();
+            }
+            Ok(DISK_IMG.to_vec())
+        }
+    }
+
+    // A TTL-only update of a value that lives only on disk rewrites the head (new timestamp and
+    // expiry) and keeps every byte from value_offset on: the value and its padding stay intact.
+    #[kani::proof]
+    #[kani::unwind(42)]
+    #[kani::stub(std::vec::Vec::resize, stub_resize)]
+    #[kani::stub(DiskIO::read_sectors_sync, stub_read_block)]
+    #[kani::stub(parking_lot::RawRwLock::lock_shared_slow, pl_lock_shared_slow)]
+    #[kani::stub(parking_lot::RawRwLock::lock_exclusive_slow, pl_lock_exclusive_slow)]
+    #[kani::stub(parking_lot::RawRwLock::unlock_shared_slow, pl_unlock_shared_slow)]
+    #[kani::stub(parking_lot::RawRwLock::unlock_exclusive_slow, pl_unlock_exclusive_slow)]
+    #[kani::stub(parking_lot::RawMutex::lock_slow, pl_mutex_lock_slow)]
+    #[kani::stub(parking_lot::RawMutex::unlock_slow, pl_mutex_unlock_slow)]
+    fn deferred_rewrite_keeps_value() {
+        let key: [u8; 2] = kani::any();
+        let value: [u8; 3] = kani::any();
+        let ts0: u64 = kani::any();
+        let exp0: u64 = kani::any();
+        let io = Arc::new(RwLock::new(mk_io(1, 0, false)));
+        let format: &dyn RecordFormat = &FormatV2;
+        // the predecessor as it sits on disk (written by the real encoder), then offloaded
+        let pred = Arc::new(Record::new(key.to_vec(), value.to_vec(), ts0));
+        pred.ttl_expiry.store(exp0, Ordering::Release);
+        // its block, as the documented layout says (the encoder is checked against the same statement)
+        let mut on_disk = [0u8; 40];
+        let sector: u64 = kani::any();
+        kani::assume(sector >= 16 && sector < (1u64 << 28));
+        unsafe {
+            let mut i = 0;
+            while i < 40 {
+                on_disk[i] = expected_byte(i, true, &key, &value, ts0, exp0);
+                DISK_IMG[i] = on_disk[i];
+                i += 1;
+            }
+            DISK_READS = 0;
+            SRC_REC = Arc::as_ptr(&pred);
+        }
+        pred.sector.store(sector, Ordering::Release);
+        pred.clear_value();
+        // the TTL-only successor
+        let ts1: u64 = kani::any();
+        let exp1: u64 = kani::any();
+        let next = Record::new_deferred_with_ttl(&pred, ts1, exp1);
+        assert!(next.key == pred.key && next.value_len == pred.value_len && next.timestamp == ts1
+            && next.ttl_expiry.load(Ordering::Acquire) == exp1 && next.get_value().is_none(), "deferred generation: same key and length, new version and expiry, no resident value");
+        let r = prepare_deferred_record_data(&next, format, &io, FEOX_BLOCK_SIZE);
+        let d = r.unwrap();
+        assert!(unsafe { DISK_READS } == 1 && unsafe { DISK_READ_SECTOR } == sector, "the predecessor's extent is read once");
+        assert!(unsafe { PIN_DURING_READ } & !(1u32 << 31) == 1, "the extent is pinned while it is read");
+        assert!(pred.extent_state_for_harness() == 0, "and unpinned afterwards");
+        assert!(d.len() == FEOX_BLOCK_SIZE);
+        let i: usize = kani::any();
+        kani::assume(i < 40);
+        let head = 4 + 2 + 2 + 24;
+        if i >= head {
+            assert!(d[i] == on_disk[i], "value bytes and padding are untouched");
+        } else {
+            assert!(d[i] == expected_byte(i, true, &key, &value, ts1, exp1), "the head carries the new timestamp and expiry");
+        }
+        std::mem::forget(io);
+        std::mem::forget(next);
+        std::mem::forget(pred);
+    }
 }
